@@ -261,12 +261,18 @@ def direction(run, f, det):
     htr = tracer_of(hb)
     gets = [k for k in live_calls(hb) if deadlock.is_map_method(f, k, "get")]
     start_params = set()
+    advances = False
+    from sendpaths import subterms
     for k in gets:
         key = strip_wrappers(htr.norm(htr.call_args(k.idx)[1]))
         for t in ([key] if key[0] != "phi" else list(key[1])):
             t = strip_wrappers(t)
             if t[0] == "param":
                 start_params.add(t[1])
+            elif any(x[0] == "call" and x[1] == k.idx for x in subterms(t)):
+                advances = True     # the next lookup key is taken from the value just looked up
+    run.require(advances and len(gets) == 1, "O14.8", "walk-advances", "the cycle walk does not continue from the looked-up successor (it would only ever inspect the first edge): longer cycles are missed",
+                "each step continues from the successor just looked up")
     cmp_params = set()
     for blk in hb.blocks:
         if blk.term["k"] == "switch":
@@ -281,6 +287,23 @@ def direction(run, f, det):
     run.require(start_params == {want_start} and cmp_params == {want_target}, "O14.5", "walk-direction",
                 "has_path starts its walk at parameter(s) %s and compares with parameter(s) %s; ask passes the callee's id as #%d and the caller's id as #%d (the walk must ask 'can the callee reach me')" % (sorted(start_params), sorted(cmp_params), want_start, want_target),
                 "walk starts at the callee's id and looks for the caller's id", loc=det.loc(hp))
+    # O14.7 (necessary condition on the walk's step bound): in a functional graph with n edges a
+    # path can have n hops, so a bounded walk must allow at least `graph.len()` steps
+    bound_ok = None
+    for blk in hb.blocks:
+        for st in blk.stmts:
+            if st["k"] == "assign" and "agg" in st["rv"] and st["rv"].get("adt", "").endswith("ops::Range"):
+                end = strip_wrappers(htr.norm(htr.operand(st["rv"]["ops"][1])))
+                start = strip_wrappers(htr.norm(htr.operand(st["rv"]["ops"][0])))
+                is_len = end[0] == "call" and deadlock.is_map_method(f, hb.blocks[end[1]], "len") and strip_wrappers(htr.norm(htr.call_args(end[1])[0]))[0] == "param"
+                bound_ok = bool(is_len and start == ("int", 0))
+                if not bound_ok and end[0] == "binop" and end[1] == "Add":
+                    a = strip_wrappers(end[2])
+                    bound_ok = a[0] == "call" and deadlock.is_map_method(f, hb.blocks[a[1]], "len") and start == ("int", 0)
+                run.require(bound_ok, "O14.7", "walk-step-bound", "the cycle walk is bounded by %s..%s steps; a chain through all n edges of the wait-for graph needs n = graph.len() steps, so longer cycles would be missed" % (show(start), show(end)),
+                            "walk bounded by 0..graph.len() steps (enough for a path through every edge)", loc=f.span(st["span"]).loc)
+    if bound_ok is None:
+        run.ok("O14.7", "walk-step-bound", "the walk is not a counted `for` over a Range (no step-bound rule applies)", nontrivial=False)
     # the true result of has_path leads to the panic
     b, cfg = det.body, det.cfg
     for blk in b.blocks:
